@@ -690,3 +690,4 @@ def check(prog, rep, tier, cfg):
     check_f(prog, rep)
     panic.check_g(prog, rep)
     panic.check_h(prog, rep)
+    panic.check_i(prog, rep)
